@@ -162,8 +162,18 @@ def run_graph(desc, seed, scratch, keep=None):
 def eval_graph(item, seed=0, scratch="/tmp"):
     t = Tally()
     desc = item["g"]
-    keep = {} if item["fam"] == "aliasing" else None
+    keep = {} if item["fam"] in ("aliasing", "container_subclass") else None
     fails, outcome, nontrivial, rts = run_graph(desc, seed, scratch, keep=keep)
+    if item["fam"] == "container_subclass":
+        # a kind the tree refuses loudly at save time is counted, not flagged; whether the subclass itself comes back is counted
+        if any(c.get("symptom") == "save_raises" for c, _ in fails):
+            t.extra["container_subclass_graphs_refused_at_save"] += 1
+            fails = [(c, m) for c, m in fails if c.get("symptom") != "save_raises"]
+        if desc[2][0][0] == "x" and desc[2][0][1][0] == "L":
+            for y in keep.values():
+                t.extra["container_subclass_as_attribute_loaded"] += 1
+                t.extra["container_subclass_as_attribute_came_back_as_the_subclass"] += int(type(vars(y).get("x")) is type(vars(S.build(desc, seed))["x"]))
+        keep = None
     if keep:
         exp = S.build(desc, seed)
         for y in keep.values():
@@ -177,7 +187,7 @@ def eval_graph(item, seed=0, scratch="/tmp"):
     t.extra["graphs_" + item["fam"]] += 1
     for cls, msg in fails:
         t.fail(dict(cls, **item.get("tag", {})), {"kind": "graph", "fam": item["fam"], "graph": desc, "seed": seed, "tag": item.get("tag", {})}, msg)
-    if item["fam"] in ("pair_of_dispatch_classes", "object_nesting", "container_nesting", "layout", "key_spelling", "aliasing"):
+    if item["fam"] in ("pair_of_dispatch_classes", "object_nesting", "container_nesting", "layout", "key_spelling", "aliasing", "container_subclass"):
         t.sample({"family": item["fam"], "graph": S.show(desc), "stores": list(STORES), "relations": ["load_save_equals_input", "zip_equals_dir", "fixed_point"], "observed": "equal" if not fails else f"{len(fails)} failure(s)"}, cap=1)
     return t
 
@@ -976,6 +986,10 @@ def run(ctx):
                            "failed_save_histories": int(merged_f.extra["failed_save_histories"]), "where_the_leaf_was_saved_after_all": int(merged_f.extra["failed_save_histories_where_the_leaf_was_saved_after_all"]),
                            "failed_load_histories": int(merged_f.extra["failed_load_histories"])},
         reentrant={"hooks": REENTRANT_HOOKS, "points": int(merged_r.extra["reentrant_points"]), "hooks_the_loader_runs": ["__new__", "__setattr__ (every restored attribute)", "__attrs_post_init__ (any class that defines it)", "__setstate__ / __getstate__ of dill-fallback values"]},
+        container_subclasses={"subclasses": S.CONTAINER_SUBCLASSES, "positions": ["attribute", "list", "tuple", "dict", "nested_object"],
+                              "graphs_refused_at_save": int(merged.extra["container_subclass_graphs_refused_at_save"]),
+                              "as_attribute_loaded": int(merged.extra["container_subclass_as_attribute_loaded"]),
+                              "as_attribute_came_back_as_the_subclass": int(merged.extra["container_subclass_as_attribute_came_back_as_the_subclass"])},
         aliasing={"graphs": [S.show(g)[:160] for g, _ in S._aliasing_graphs()], "groups_of_aliased_occurrences_loaded": int(merged.extra["alias_groups_loaded"]),
                   "groups_still_one_object_after_load": int(merged.extra["alias_groups_still_one_object_after_load"])},
         cycles={"graphs": [n for n, _ in cyc], "cases": len(cyc_items), "refused_loudly": int(merged_c.extra["cycles_refused_loudly"]), "saved_and_loaded": int(merged_c.extra["cycles_saved_and_loaded"])},
